@@ -897,8 +897,14 @@ class Interp:
 
     def compare(self, op, a, b):
         if isinstance(op, (ast.Eq, ast.NotEq)):
+            if isinstance(op, ast.NotEq) and isinstance(a, ModelObj) and hasattr(a, "m_ne"):
+                return a.m_ne(self, b)
             if isinstance(a, ModelObj) and hasattr(a, "m_eq"):
                 f = a.m_eq(self, b)
+                if isinstance(f, ModelObj):
+                    if isinstance(op, ast.NotEq):
+                        raise Unsupported("!= on array-valued comparison")
+                    return f
             elif isinstance(b, ModelObj) and hasattr(b, "m_eq"):
                 f = b.m_eq(self, a)
             else:
@@ -968,7 +974,22 @@ class Interp:
                     kw.update(dict(self.dict_items(dv)))
             else:
                 kw[k.arg] = self.eval(k.value)
+        self.call_node = (e, self.frames[-1])
         return self.call(f, args, kw)
+
+    def call_site_id(self, callee):
+        """A label for the current call site that is stable under edits elsewhere: enclosing function,
+        callee text and the ordinal of this call among the calls with the same text in that function."""
+        node, fr = getattr(self, "call_node", (None, None))
+        if node is None or fr.func is None:
+            return callee
+        txt = ast.unparse(node.func)
+        same = [n for n in ast.walk(fr.func.node) if isinstance(n, ast.Call) and ast.unparse(n.func) == txt]
+        same.sort(key=lambda n: (n.lineno, n.col_offset))
+        idx = next((i for i, n in enumerate(same) if n is node), 0)
+        short = fr.qualname.split(".")
+        short = ".".join(short[-2:]) if len(short) >= 2 else fr.qualname
+        return f"{short}/{txt}#{idx}"
 
     # ---- comprehensions
     def comp_iter(self, gens, body_fn, idx=0):
@@ -1000,12 +1021,47 @@ class Interp:
         nf.loop_ordinal = fr.loop_ordinal
         return nf
 
+    def invariant_comp(self, e, it, spec, key):
+        """[elt for x in L] over a symbolic list L with an invariant (the body may have effects):
+        result_i = the list built after i elements; checked init / preserve like a for loop."""
+        ctx = self.ctx
+        fr = self.frames[-1]
+        tag = f"{key[0]}/comp{key[1]}"
+        g = e.generators[0]
+        spec.enter(self, fr, it)
+        empty = SymList(z3.IntVal(0), lambda i: spec.dummy(i), elem_sort=spec.result_sort)
+        for lbl, f in spec.inv(self, fr, it, z3.IntVal(0), empty):
+            ctx.oblige(f"{tag}/init/{lbl}", f, kind="inv_init", props=spec.props)
+        i = ctx.fresh("i", Int)
+        spec.havoc(self, fr, it, i, set())
+        res = SymList.fresh(ctx, "comp", spec.result_sort)
+        ctx.assume(AND(i >= 0, i <= it.n, res.n == i))
+        for lbl, f in spec.inv(self, fr, it, i, res):
+            ctx.assume(f)
+        if ctx.branch(i < it.n, f"comp{key[1]} iterates"):
+            self.frames.append(self._comp_frame())
+            try:
+                self.assign(g.target, it.get(i))
+                for c in g.ifs:
+                    raise Unsupported("filtered comprehension with invariant")
+                v = self.eval(e.elt)
+            finally:
+                self.frames.pop()
+            res.do_append(self, v)
+            for lbl, f in spec.inv(self, fr, it, i + 1, res):
+                ctx.oblige(f"{tag}/preserve/{lbl}", f, kind="inv_pres", props=spec.props)
+            raise PathEnd()
+        ctx.assume(i == it.n)
+        return res
+
     def e_ListComp(self, e):
-        h = getattr(self, "comp_hook", None)
-        if h:
-            r = h(e)
-            if r is not NotImplemented:
-                return r
+        if len(e.generators) == 1:
+            key = (self.frames[-1].qualname, "c%d" % sum(1 for _ in [0]))
+            spec = self.ctx.loopspecs.get((self.frames[-1].qualname, "comp0"))
+            if spec is not None:
+                it = self.iterate(self.eval(e.generators[0].iter))
+                if isinstance(it, SymList):
+                    return self.invariant_comp(e, it, spec, (self.frames[-1].qualname, 0))
         out = []
         self.frames.append(self._comp_frame())
         try:
